@@ -179,6 +179,28 @@ def shadow_pair(rng, i):
     return {"kind": "pair", "callee": callee, "callee_name": "g", "caller": src, "args": [["a", t], ["b", t], ["c", t]], "ret": t, "inline": inline, "hostile": False, "shadow": True}
 
 
+def mistyped_pair(rng, i):
+    w1, w2 = rng.choice([(2, 4), (4, 2), (2, 3), (3, 2), (2, 6)])
+    body = rng.choice(["y + x", "x ^ y", "(x & y) + 1", "y if x == 1 else x", "x + x + y"])
+    wr = max(w1, w2)
+    callee = f"def g(x: Qint[{w1}], y: Qint[{w2}]) -> Qint[{wr}]:\n    return {body}\n"
+    form = i % 4
+    inline = form == 3
+    if form == 0:
+        sig, args, call = f"a: Qint[{w2}], b: Qint[{w1}]", [["a", f"Qint{w2}"], ["b", f"Qint{w1}"]], "g(a, b)"
+    elif form == 1:
+        sig, args, call = f"t: Tuple[Qint[{w1}], Qint[{w2}]]", [["t", [f"Qint{w1}", f"Qint{w2}"]]], "g(t[1], t[0])"
+    elif form == 2:
+        sig, args, call = f"a: Qint[{w2}], b: Qint[{w1}], c: bool", [["a", f"Qint{w2}"], ["b", f"Qint{w1}"], ["c", "bool"]], "g(a, b) if c else g(b, a)"
+    else:
+        sig, args, call = f"a: Qint[{w2}], b: Qint[{w1}]", [["a", f"Qint{w2}"], ["b", f"Qint{w1}"]], "g(a, b)"
+    src = f"def f({sig}) -> Qint[{wr}]:\n"
+    if inline:
+        src += "    " + callee.replace("\n    ", "\n        ").rstrip("\n") + "\n"
+    src += f"    return {call}\n"
+    return {"kind": "pair", "callee": callee, "callee_name": "g", "caller": src, "args": args, "ret": f"Qint{wr}", "inline": inline, "hostile": False, "mistyped": True}
+
+
 def setup():
     from ..monitors import reach
 
@@ -195,6 +217,10 @@ def cases(tier, seed):
     # a callee name bound twice in the caller's scope: Python calls the latest binding
     for i in range(16 if tier == "quick" else 160):
         yield shadow_pair(rng, i)
+    # actual arguments whose widths do not match the formals one by one although the totals agree (swapped order):
+    # the library may reject the call; if it accepts it, the caller must still mean the callee applied to the values
+    for i in range(12 if tier == "quick" else 120):
+        yield mistyped_pair(rng, i)
     # oraclize
     for c in CALLEES:
         name, params, ret, body = c
